@@ -327,6 +327,65 @@ func runC31(w *World, r *Report) {
 		})
 	}
 
+	// ---- R-C31-6: what is cached is what the database holds
+	r.Rule("R-C31-6", "database store: no user record whose Password member was overwritten with a constant (the suppression mask of a listing) flows into caches.Add: lookups answered from the cache return the record as the database holds it, as the file store does", 2)
+
+	for _, fn := range dbFns {
+		var seeds []ssa.Value
+
+		allInstrs(fn, func(in ssa.Instruction) {
+			st, ok := in.(*ssa.Store)
+			if !ok {
+				return
+			}
+
+			fa, ok := st.Addr.(*ssa.FieldAddr)
+			if !ok || fieldName(fa.X.Type(), fa.Field) != "Password" {
+				return
+			}
+
+			if _, isConst := constString(st.Val); !isConst {
+				return
+			}
+
+			seeds = append(seeds, fa.X, addrRoot(fa.X))
+		})
+
+		n := 0
+
+		var fl *flowResult
+
+		allInstrs(fn, func(in ssa.Instruction) {
+			c := callTo(in, "internal/caches.Add")
+			if c == nil || len(c.Args) < 3 {
+				return
+			}
+
+			n++
+
+			key := fnKey(fn) + "|caches.Add stores the database's record"
+			if n > 1 {
+				key += "#" + sprintInt(n)
+			}
+
+			if len(seeds) == 0 {
+				r.Discharge("R-C31-6", key, w.pos(in.Pos()), "no record is masked in this method")
+
+				return
+			}
+
+			if fl == nil {
+				fl = flowForward(fn, seeds, flowOpts{intoClosures: true})
+			}
+
+			if fl.has(c.Args[2]) {
+				r.Violate("R-C31-6", key, w.pos(in.Pos()), "a record whose password was replaced by the suppression mask in this method is stored in the user cache: ReadUser then answers with the mask instead of the stored hash, and a read-modify-write saves the mask")
+			} else {
+				r.Discharge("R-C31-6", key, w.pos(in.Pos()), "the cached value does not derive from a masked record")
+			}
+		})
+	}
+
 	// ---- R-C31-5: a write request always stores (both siblings)
 	r.Rule("R-C31-5", "sibling agreement on WriteUser: every path from entry to a return performs the store (file: the map update; database: Update or Insert) — neither store may decide by itself that a write is not needed", 2)
 
